@@ -254,4 +254,164 @@ theorem legacy_wrong_sign_defaults_bounded :
     hasLowerBound (.fin 0) .negInf .posInf .posInf = true := by
   decide
 
+/-! ### round 4: what the oracle demands, stated for the model -/
+
+/-- every accepted name of one `Variable` object (an alias) gives the same outcome, for all debiasers (exhaustive over the
+    14 × 14 pairs of keys) -/
+theorem alias_same_outcome : ∀ d ∈ Deb.all, ∀ p ∈ varKeys, ∀ q ∈ varKeys, streq p.2 q.2 = true →
+    fromVariable d (.name p.1) = fromVariable d (.name q.1) := by
+  decide
+
+example : (("ps", "psl") : String × String) ∈ varKeys ∧ (("psl", "psl") : String × String) ∈ varKeys := by decide
+
+/-- QDM's detour is taken for exactly the spellings of `pr` (lower, UPPER, MiXed, exhaustive over the 14 names) and for
+    exactly the `pr` object -/
+theorem qdm_detour_spellings : ∀ n ∈ names,
+    isPr (.name n) = streq n "pr" ∧ isPr (.name (upperStr n)) = streq n "pr" ∧ isPr (.name (mixedStr n)) = streq n "pr" ∧
+    (∀ p ∈ varKeys, isPr (.obj p.2) = streq p.2 "pr") := by
+  decide
+
+/-- **the whole precedence chain of `_from_variable`'s keyword dictionary**: a keyword argument wins; otherwise the
+    variable's default; otherwise the general default; otherwise the Variable's own name / range -/
+theorem params_precedence {α} (name range : α) (general vs kwargs : List (String × α)) (k : String) :
+    (∀ v, (k, v) ∈ kwargs → (∀ v', (k, v') ∈ kwargs → v' = v) → getKV (paramsOf name range general vs kwargs) k = some v) ∧
+    (hasKey kwargs k = false → ∀ v, (k, v) ∈ vs → (∀ v', (k, v') ∈ vs → v' = v) → getKV (paramsOf name range general vs kwargs) k = some v) ∧
+    (hasKey kwargs k = false → hasKey vs k = false → ∀ v, (k, v) ∈ general → (∀ v', (k, v') ∈ general → v' = v) →
+        getKV (paramsOf name range general vs kwargs) k = some v) ∧
+    (hasKey kwargs k = false → hasKey vs k = false → hasKey general k = false →
+        getKV (paramsOf name range general vs kwargs) k = getKV [("variable", name), ("reasonable_physical_range", range)] k) := by
+  unfold paramsOf
+  refine ⟨fun v hm hu => getKV_merge _ _ k v hm hu, fun h1 v hm hu => ?_, fun h1 h2 v hm hu => ?_, fun h1 h2 h3 => ?_⟩
+  · rw [getKV_merge_not_key _ _ _ h1]; exact getKV_merge _ _ k v hm hu
+  · rw [getKV_merge_not_key _ _ _ h1, getKV_merge_not_key _ _ _ h2]; exact getKV_merge _ _ k v hm hu
+  · rw [getKV_merge_not_key _ _ _ h1, getKV_merge_not_key _ _ _ h2, getKV_merge_not_key _ _ _ h3]
+
+example : getKV (paramsOf "tas-name" "range" [("running_window_mode", "True"), ("detrending", "False")] [("detrending", "True")]
+    [("running_window_mode", "False")]) "detrending" = some "True" ∧
+    getKV (paramsOf "tas-name" "range" [("running_window_mode", "True")] [] [("running_window_mode", "False")]) "running_window_mode" = some "False" ∧
+    getKV (paramsOf "tas-name" "range" [("running_window_mode", "True")] [] []) "variable" = some "tas-name" := by decide
+
+/-- **whatever happened to the instance before** (an earlier `apply`, an earlier look at derived attributes, stale derived
+    attributes `e` of any kind): after `k := v`, `apply` shows the run what a fresh instance constructed with `k = v` shows it -/
+theorem assign_eq_construct_any_history (rs : List Rule) (f : List (String × Val)) (k : String) (v : Val)
+    (e : String → Option Built) (hs : Settled rs (setKV f k v)) :
+    applyView rs true (assign ⟨f, e⟩ k v) = andThen (construct rs (setKV f k v)) (applyView rs true) := by
+  have hL := derive_view rs (setKV f k v) e hs
+  have hR := derive_view rs (setKV f k v) noExtra hs
+  have ha : assign ⟨f, e⟩ k v = ⟨setKV f k v, e⟩ := rfl
+  rw [ha, hL, ← hR]
+  unfold andThen construct
+  cases hd : derive rs ⟨setKV f k v, noExtra⟩ with
+  | error x => simp [applyView, hd]
+  | ok j => simp [applyView, hd, derive_idem rs _ noExtra j hs hd]
+
+/-- **Histories.**  For the seven debiasers whose `__attrs_post_init__` only validates and rebuilds (all but QDM): after ANY
+    sequence of assignments and successful `apply`s on an instance constructed from `base`, the next `apply` shows the run
+    exactly what a fresh instance constructed from the assigned-to fields shows it — nothing computed earlier survives. -/
+theorem history_irrelevant (rs : List Rule) (hp : rs.all Rule.isPure = true) (base : List (String × Val)) (ops : List Op)
+    (e : String → Option Built) (j : Inst) (h : runOps rs ⟨base, e⟩ ops = .ok j) :
+    applyView rs true j = andThen (construct rs (fieldsAfter base ops)) (applyView rs true) := by
+  have hf := runOps_fields rs hp ops base e j h
+  obtain ⟨jf, je⟩ := j
+  simp only [] at hf
+  subst hf
+  have hs := settled_of_pure rs hp (fieldsAfter base ops)
+  have hL := derive_view rs _ je hs
+  have hR := derive_view rs _ noExtra hs
+  rw [hL, ← hR]
+  unfold andThen construct
+  cases hd : derive rs ⟨fieldsAfter base ops, noExtra⟩ with
+  | error x => simp [applyView, hd]
+  | ok j' => simp [applyView, hd, derive_idem rs _ noExtra j' hs hd]
+
+theorem pure_rules : ∀ d ∈ Deb.all, d ≠ .quantileDeltaMapping → (rulesOf d).all Rule.isPure = true := by decide
+
+/-- a history with two applies and two assignments in between (ISIMIP-like rules), evaluated -/
+def isiBase : List (String × Val) := lsBase ++ [("distribution", .other "distribution"), ("nonparametric_qm", .b false)]
+
+example : andThen (runOps (rulesOf .isimip) ⟨isiBase, noExtra⟩
+      [.apply, .assign "running_window_mode" (.b true), .apply, .assign "running_window_length" (.i 61)]) (applyView (rulesOf .isimip) true)
+    = .ok (setKV (setKV isiBase "running_window_mode" (.b true)) "running_window_length" (.i 61),
+           [("running_window", ⟨"RunningWindowOverDaysOfYear", [.i 61, .i 1]⟩)]) := by
+  decide +kernel
+
+/-- **Invalid values are rejected whatever the other settings are**: if the value given for one field fails its converter or
+    a validator, construction fails — for every assignment of the other fields -/
+theorem invalid_rejected_any_context (d : Deb) (args : List (String × Val)) (f : Field) (x : Val) (e : String)
+    (hm : f ∈ fieldsOf d) (hx : getKV args f.name = some x) (he : checkField f x = .error e) :
+    ∃ e', constructChecked d args = .error e' := by
+  obtain ⟨e', h⟩ := validateAll_error_of_mem (fieldsOf d) args f x e hm hx he
+  exact ⟨e', by unfold constructChecked; rw [h]⟩
+
+/-- **Invalid combinations are rejected at construction and at every re-run in `apply`**: whenever the check of ANY
+    (validating or rebuilding) statement of a debiaser's `__attrs_post_init__` fails on the current fields, `__attrs_post_init__`
+    raises — whatever derived attributes `e` the instance carries (none at construction, anything later) and whatever the other
+    fields are. -/
+theorem invalid_combination_rejected (d : Deb) (f : List (String × Val)) (e : String → Option Built) (r : Rule) (x : String)
+    (hr : r ∈ pureOf (rulesOf d)) (hc : checkRule r f = .error x) :
+    (∃ y, derive (rulesOf d) ⟨f, e⟩ = .error y) ∧ (∃ y, applyView (rulesOf d) true ⟨f, e⟩ = .error y) := by
+  have key : ∃ y, derive (rulesOf d) ⟨f, e⟩ = .error y := by
+    by_cases hq : d = .quantileDeltaMapping
+    · subst hq
+      have hsplit : rulesOf .quantileDeltaMapping = pureOf (rulesOf .quantileDeltaMapping) ++
+          [.fillNone "cdf_threshold" "running_window_length" "running_window_over_years_of_cm_future_length"] := rfl
+      obtain ⟨y, hy⟩ := derive_pure_error_of_mem _ (pureOf_pure _) f e r x hr hc
+      exact ⟨y, by rw [hsplit, derive_append, hy]⟩
+    · have hp : (rulesOf d).all Rule.isPure = true := by
+        cases d <;> first | decide | exact absurd rfl hq
+      have hm : r ∈ rulesOf d := (List.mem_filter.mp hr).1
+      exact derive_pure_error_of_mem _ hp f e r x hm hc
+  obtain ⟨y, hy⟩ := key
+  exact ⟨⟨y, hy⟩, ⟨y, by simp [applyView, hy]⟩⟩
+
+/-- the catalogue: the failing checks behind the three kinds of invalid combination -/
+theorem invalid_combination_checks (f : List (String × Val)) :
+    (get f "distribution" = .none → get f "nonparametric_qm" = .b false →
+        checkRule (.raiseIfNoneAndNot "distribution" "nonparametric_qm") f = .error "ValueError") ∧
+    (∀ L S : Int, get f "running_window_length" = .i L → get f "running_window_step_length" = .i S → S > L →
+        checkRule (.raiseIfGt "running_window_step_length" "running_window_length") f = .error "ValueError") ∧
+    (∀ L S : Int, get f "running_window_mode" = .b true → get f "running_window_length" = .i L → get f "running_window_step_length" = .i S →
+        (L ≤ 0 ∨ S ≤ 0 ∨ normOdd S > normOdd L) →
+        checkRule (.build "running_window" "running_window_mode" ["running_window_length", "running_window_step_length"] "RunningWindowOverDaysOfYear") f
+          = .error "ValueError") ∧
+    (∀ L S : Int, get f "running_window_mode_over_years_of_cm_future" = .b true →
+        get f "running_window_over_years_of_cm_future_length" = .i L → get f "running_window_over_years_of_cm_future_step_length" = .i S →
+        (L ≤ 0 ∨ S ≤ 0 ∨ normOdd S > normOdd L) → checkRule yearRule f = .error "ValueError") := by
+  refine ⟨fun h1 h2 => by simp [checkRule, h1, h2], fun L S h1 h2 h => by simp [checkRule, h1, h2, h], ?_, ?_⟩
+  · intro L S hm h1 h2 h
+    simp only [checkRule, hm, List.map, h1, h2, buildCheck]
+    rcases h with h | h | h
+    · simp [h]
+    · by_cases hl : L ≤ 0 <;> simp [hl, h]
+    · by_cases hl : L ≤ 0 ∨ S ≤ 0 <;> simp [hl, h]
+  · intro L S hm h1 h2 h
+    simp only [yearRule, checkRule, hm, List.map, h1, h2, buildCheck]
+    rcases h with h | h | h
+    · simp [h]
+    · by_cases hl : L ≤ 0 <;> simp [hl, h]
+    · by_cases hl : L ≤ 0 ∨ S ≤ 0 <;> simp [hl, h]
+
+/-- … and where each of them applies: ISIMIP's distribution check in every configuration (running window on or off);
+    step > length for the six running-window debiasers in every configuration; the window construction for all eight
+    (with the window on); the year windows for CDFt and QDM -/
+theorem invalid_combination_members :
+    Rule.raiseIfNoneAndNot "distribution" "nonparametric_qm" ∈ pureOf (rulesOf .isimip) ∧
+    (∀ d ∈ [Deb.linearScaling, .quantileMapping, .scaledDistributionMapping, .cdft, .ecdfm, .quantileDeltaMapping],
+        Rule.raiseIfGt "running_window_step_length" "running_window_length" ∈ pureOf (rulesOf d)) ∧
+    (∀ d ∈ Deb.all, Rule.build "running_window" "running_window_mode" ["running_window_length", "running_window_step_length"]
+        "RunningWindowOverDaysOfYear" ∈ pureOf (rulesOf d)) ∧
+    (∀ d ∈ [Deb.cdft, .quantileDeltaMapping], yearRule ∈ pureOf (rulesOf d)) := by
+  decide
+
+/-- the ISIMIP combination, assembled: no distribution and no nonparametric mapping is rejected in EVERY configuration, at
+    construction and at the re-run in `apply` -/
+theorem isimip_no_distribution_rejected (f : List (String × Val)) (e : String → Option Built)
+    (h1 : get f "distribution" = .none) (h2 : get f "nonparametric_qm" = .b false) :
+    (∃ y, construct (rulesOf .isimip) f = .error y) ∧ (∃ y, applyView (rulesOf .isimip) true ⟨f, e⟩ = .error y) :=
+  ⟨(invalid_combination_rejected .isimip f noExtra _ _ invalid_combination_members.1 ((invalid_combination_checks f).1 h1 h2)).1,
+   (invalid_combination_rejected .isimip f e _ _ invalid_combination_members.1 ((invalid_combination_checks f).1 h1 h2)).2⟩
+
+example : get ([("running_window_mode", .b false), ("distribution", .none), ("nonparametric_qm", .b false)] : List (String × Val)) "distribution" = .none := by
+  decide
+
 end Props.C15
